@@ -1,6 +1,6 @@
 (* C03 - variables: (compound) assignment, type stability, storer is the source of truth. *)
 From Coq Require Import List ZArith Bool.
-From YS Require Import Base.Sexp Num.F64 Yarn.Ast Yarn.Value Yarn.Eval Yarn.Runner Spec.SetSpec Proofs.SetProofs.
+From YS Require Import Base.Sexp Num.F64 Yarn.Ast Yarn.Value Yarn.Eval Yarn.Runner Spec.SetSpec Proofs.SetProofs Proofs.StorerProofs.
 Import ListNotations.
 
 (* set / declare store what the table SetSpec.set_spec says, with exactly one write *)
@@ -46,6 +46,26 @@ Theorem C03_single_type_across_next : forall d fm m c,
   single (vars (dat m)) -> single (vars (dat (snd (next d fm m c)))).
 Proof. exact next_single. Qed.
 Print Assumptions C03_single_type_across_next.
+
+(* GetValue and GetValues agree on every name, present or absent: for every store built by writes
+   (scripts, host, RestoreAt all write through the Set calls), and across anything a runner does *)
+Theorem C03_reads_agree_after_any_writes : forall ws k,
+  let st := fold_left (fun st kv => st_set st (fst kv) (snd kv)) ws empty_store in
+  aget (st_values st) k = st_get st k.
+Proof. exact get_values_agrees_after_writes. Qed.
+Print Assumptions C03_reads_agree_after_any_writes.
+
+Theorem C03_reads_agree_across_next : forall d fm m c k, store_ok (vars (dat m)) ->
+  let st := vars (dat (snd (next d fm m c))) in aget (st_values st) k = st_get st k.
+Proof. exact get_values_agrees_across_next. Qed.
+Print Assumptions C03_reads_agree_across_next.
+
+(* ... and the invariant is needed: a name under two types (the defect D2 of the pinned tree) makes
+   the two reads disagree *)
+Example C03_reads_disagree_without_invariant :
+  let st := {| nums := [(STR "x", of_Z 1)]; bools := []; strs := [(STR "x", STR "s")] |} in
+  st_get st (STR "x") = Some (VNum (of_Z 1)) /\ aget (st_values st) (STR "x") = Some (VStr (STR "s")).
+Proof. exact get_values_needs_single. Qed.
 
 (* reads go through the storer: what the host wrote last is what the script reads next *)
 Theorem C03_host_write_visible : forall s k v, fst (eval_in (host_write s k v) (EVar k)) = Val v.
